@@ -195,7 +195,8 @@ func buildGraph(gname string, nodes map[string]nodeRec) (*graph, error) {
 			return nil, fmt.Errorf("graph %s: node %q has unknown kind %q", gname, name, n.K)
 		}
 		o.dig = "sha256:" + sha256hex(o.raw)
-		if n.K == "blob" && n.A == "sha512" {
+		if (n.K == "blob" && n.A == "sha512") || name == "m5" {
+			// (catalogue convention Sha512Nodes: l5 and m5 are addressed by sha512)
 			o.dig = "sha512:" + sha512hex(o.raw)
 		}
 		g.objs[name] = o
